@@ -1,27 +1,34 @@
 import Revm.Util.Hex
 import Revm.Model.Journal
+import Revm.Spec.JournalAbs
 /-! Stateful driver for the `JournaledState` model.
 `begin journal <spec> <preloaded a,b|-> <db a:bal:nonce:hash;…|-> <storage a.k=v;…|-> <delegations hash:addr;…|->`
 then `j <op> …`; every reply is `<result> || <canonical dump of the observable state>`.
 The universe that is dumped is addresses 1..8, slots 0..3 (the harness only uses those). -/
 namespace Driver.Journal
-open Revm Revm.Hex Revm.Model.Journal
+open Revm Revm.Hex Revm.Model.Journal Revm.Spec.JournalAbs
 
 structure St where
   js : JState
   db : Db
+  hasStorage : Addr → Bool
   cps : Array Checkpoint
+  /-- abstract dump taken when checkpoint `i` was handed out; `none` once an inadmissible operation
+  or a revert of an outer checkpoint has made the C06 statement inapplicable to it -/
+  snaps : Array (Option String)
+  /-- the dump regardless of admissibility (to compute the same `restored` bit as the harness) -/
+  snapsAll : Array String
   dead : Bool
 
 def emptyDb : Db := { basic := fun _ => none, storage := fun _ _ => 0, delegate := fun _ => none }
-def St.init : St := { js := JState.new 0 (fun _ => false), db := emptyDb, cps := #[], dead := true }
+def St.init : St := { js := JState.new 0 (fun _ => false), db := emptyDb, hasStorage := fun _ => false, cps := #[], snaps := #[], snapsAll := #[], dead := true }
 
 def universeAddrs : List Nat := [1, 2, 3, 4, 5, 6, 7, 8]
 def universeKeys : List Nat := [0, 1, 2, 3]
 
 def splitList (s : String) (sep : String) : List String := if s = "-" then [] else s.splitOn sep
 
-def parseDb (accs sto del : String) : Option Db := do
+def parseDb (accs sto del : String) : Option (Db × (Addr → Bool)) := do
   let accL ← (splitList accs ";").mapM fun e => match e.splitOn ":" with
     | [a, b, n, h] => do some ((← parseHex? a), ({ balance := ← parseHex? b, nonce := ← parseHex? n, codeHash := ← parseHex? h, code := none } : Info))
     | _ => none
@@ -33,9 +40,10 @@ def parseDb (accs sto del : String) : Option Db := do
   let delL ← (splitList del ";").mapM fun e => match e.splitOn ":" with
     | [h, a] => do some ((← parseHex? h), (← parseHex? a))
     | _ => none
-  some { basic := fun a => (accL.find? (·.1 = a)).map (·.2),
-         storage := fun a k => ((stoL.find? (fun e => e.1 = a ∧ e.2.1 = k)).map (·.2.2)).getD 0,
-         delegate := fun h => (delL.find? (·.1 = h)).map (·.2) }
+  some ({ basic := fun a => (accL.find? (·.1 = a)).map (·.2),
+          storage := fun a k => ((stoL.find? (fun e => e.1 = a ∧ e.2.1 = k)).map (·.2.2)).getD 0,
+          delegate := fun h => (delL.find? (·.1 = h)).map (·.2) },
+        fun a => stoL.any (fun e => e.1 = a ∧ e.2.2 ≠ 0))
 
 def flagsStr (a : Acct) : String :=
   (if a.created then "C" else "") ++ (if a.selfdestructed then "S" else "") ++ (if a.touched then "T" else "") ++
@@ -50,6 +58,18 @@ def dump (s : JState) : String :=
     (s.transient a k).map fun v => s!"{toHex a}.{toHex k}={toHex v}"
   s!"d={s.depth} L={",".intercalate (s.logs.map toHex)} T={",".intercalate tr} S={"|".intercalate accs}"
 
+/-- canonical text of `abs` over the universe (what C06 says a revert restores) -/
+def absDump (db : Db) (s : JState) : String :=
+  let accs := universeAddrs.map fun a =>
+    let x := absAcct db s a
+    let fl := (if x.created then "C" else "") ++ (if x.selfdestructed then "S" else "") ++
+      (if x.touched then "T" else "") ++ (if x.notExisting then "N" else "")
+    let slots := universeKeys.map fun k => let sl := x.slot k; s!"{toHex sl.orig},{toHex sl.present},{boolStr sl.warm}"
+    s!"{toHex a}:{toHex x.balance}/{toHex x.nonce}/{toHex x.codeHash}/{fl}/w{boolStr x.warm}/[{";".intercalate slots}]"
+  let tr := universeAddrs.flatMap fun a => universeKeys.filterMap fun k =>
+    let v := tload s a k; if v = 0 then none else some s!"{toHex a}.{toHex k}={toHex v}"
+  s!"L={",".intercalate (s.logs.map toHex)} T={",".intercalate tr} A={"|".intercalate accs}"
+
 def reply (st : St) (js : JState) (r : String) : St × String := ({ st with js := js }, s!"{r} || {dump js}")
 def panic (st : St) : St × String := ({ st with dead := true }, "panic")
 
@@ -57,9 +77,9 @@ def begin (toks : List String) : St × String :=
   match toks with
   | [spec, pre, accs, sto, del] =>
     match spec.toNat?, (splitList pre ",").mapM parseHex?, parseDb accs sto del with
-    | some spec, some preL, some db =>
+    | some spec, some preL, some (db, hs) =>
       let js := JState.new spec (fun a => preL.contains a)
-      ({ js := js, db := db, cps := #[], dead := false }, s!"ok || {dump js}")
+      ({ js := js, db := db, hasStorage := hs, cps := #[], snaps := #[], snapsAll := #[], dead := false }, s!"ok || {dump js}")
     | _, _, _ => (St.init, "bad-op")
   | _ => (St.init, "bad-op")
 
@@ -85,7 +105,10 @@ def handle (st : St) (toks : List String) : St × String :=
       | none => panic st
     | none => (st, "bad-op")
   | ["initload", a, ks] => match nat a, (splitList ks ",").mapM nat with
-    | some a, some ks => reply st (initialAccountLoad st.db st.js a ks) "ok"
+    | some a, some ks =>
+      -- tx-level pre-warming is not journaled: C06 does not speak about checkpoints that are open now
+      let st := { st with snaps := st.snaps.map fun _ => none }
+      reply st (initialAccountLoad st.db st.js a ks) "ok"
     | _, _ => (st, "bad-op")
   | ["touch", a] => match nat a with
     | some a => match touch st.js a with
@@ -106,7 +129,10 @@ def handle (st : St) (toks : List String) : St × String :=
       | none => panic st
     | none => (st, "bad-op")
   | ["setcode", a, h] => match nat a, nat h with
-    | some a, some h => match setCode st.js a h with
+    | some a, some h =>
+      let adm := admissible st.db st.hasStorage 0 { js := st.js, cps := [] } (.setCode a h)
+      let st := if adm then st else { st with snaps := st.snaps.map fun _ => none }
+      match setCode st.js a h with
       | some js => reply st js "ok"
       | none => panic st
     | _, _ => (st, "bad-op")
@@ -138,9 +164,13 @@ def handle (st : St) (toks : List String) : St × String :=
     | _, _ => (st, "bad-op")
   | ["create", c, a, hs, bal, spec] => match nat c, nat a, parseBool? hs, nat bal, spec.toNat? with
     | some c, some a, some hs, some bal, some spec => if bal < W then
+      let adm := admissible st.db st.hasStorage 0 { js := st.js, cps := [] } (.create c a hs bal spec)
+      let st := if adm then st else { st with snaps := st.snaps.map fun _ => none }
+      let snap := absDump st.db st.js
       match createAccountCheckpoint st.js c a hs bal spec with
       | some (js, .ok cp) =>
-        let st := { st with cps := st.cps.push cp }
+        let st := { st with cps := st.cps.push cp, snaps := st.snaps.push (if adm then some snap else none),
+                            snapsAll := st.snapsAll.push snap }
         reply st js s!"ok cp {st.cps.size - 1}"
       | some (js, .error .collision) => reply st js "err CreateCollision"
       | some (js, .error .overflowPayment) => reply st js "err OverflowPayment"
@@ -148,13 +178,22 @@ def handle (st : St) (toks : List String) : St × String :=
     | _, _, _, _, _ => (st, "bad-op")
   | ["checkpoint"] =>
     let (js, cp) := checkpoint st.js
-    let st := { st with cps := st.cps.push cp }
+    let snap := absDump st.db st.js
+    let st := { st with cps := st.cps.push cp, snaps := st.snaps.push (some snap), snapsAll := st.snapsAll.push snap }
     reply st js s!"cp {st.cps.size - 1}"
   | ["commit"] => reply st (commit st.js) "ok"
   | ["revert", i] => match i.toNat? with
     | some i => match st.cps[i]? with
       | some cp => match revert st.js cp with
-        | some js => reply st js "ok"
+        | some js =>
+          -- the property's own oracle: is the observable state the one saved at the checkpoint?
+          let restored := (st.snapsAll[i]?).map (· == absDump st.db js) |>.getD false
+          let applicable := ((st.snaps[i]?).getD none).isSome
+          -- this checkpoint and every younger one are consumed by the revert
+          let st := { st with snaps := (List.range st.snaps.size).toArray.map fun j =>
+                                if j ≥ i then none else (st.snaps[j]?).getD none }
+          let (st, out) := reply st js s!"ok restored={b restored}"
+          (st, if applicable then out ++ " | spec=ok restored=1" else out)
         | none => panic st
       | none => (st, "bad-op")
     | none => (st, "bad-op")
